@@ -30,7 +30,9 @@ impl<U> crate::fold::Fold<U> for ConstantOptimizer {
                     .into_iter()
                     .map(|x| self.fold_expr(x))
                     .collect::<Result<Vec<_>, _>>()?;
-                let expr = if elts.iter().all(|e| e.is_constant_expr()) {
+                let expr = if matches!(ctx, crate::ExprContext::Load)
+                    && elts.iter().all(|e| e.is_constant_expr())
+                {
                     let tuple = elts
                         .into_iter()
                         .map(|e| match e {
